@@ -16,34 +16,37 @@ var realStub = map[string]interface{}{
 	"stub": []string{"package sync as seen by the repository's own packages (Mutex, RWMutex, Pool, Once, Map -> verifsim/simsync); the standard library keeps the real sync"},
 }
 
+// Quick tiers are sized by NUMBER OF RUNS, not by time: the same seed then does the same work on a fast and on a slow machine
+// (a copy of this sandbox restored elsewhere ran 2.4 times slower than the one the checks were developed on), and the
+// evidence file of one run describes every run. maxWall is a safety net about three times the expected duration.
 func specs() map[string]*propSpec {
 	m := map[string]*propSpec{}
 	m["C09"] = &propSpec{id: "C09", engine: "E1-lru-simulator", level: "exploration",
 		rule:     "systematic corpus (every run): every operation sequence of length 1..5 over {Store,Load,Delete} x 2 keys + Len + Dump on capacities 0..2 (thorough: length <= 6, and length <= 5 over 3 keys on capacities 0..3), with the removal callback registered; plus seeded single-client histories of Store/Load/Delete/Len/Dump (1..2000 ops, 2..5 keys or 4c+8 keys, capacities 0..4, 5, 8, 16, swarm operation mixes) refined step by step against a reference LRU; a run is non-trivial when it had >=1 eviction and >=1 (re-store of a live key or load hit); distinct = distinct hash of (capacity, operation list, event log)",
 		assume:   []string{"sampling, not enumeration: a clean batch is evidence, not proof", "the reference model (e1/model.go) is the specification of an LRU as stated in C09", "Dump text is not judged under C09"},
-		quick:    budget{race: false, runs: 240000, maxWall: 40 * time.Second},
+		quick:    budget{race: false, runs: 120000, maxWall: 90 * time.Second},
 		thorough: budget{race: false, runs: 60000000, maxWall: 8 * time.Minute}}
 	m["C10"] = &propSpec{id: "C10", engine: "E1-lru-simulator", level: "exploration",
 		rule:     "seeded schedules of 2..4 clients x 2..6 ops (small: linearizability of the recorded history against the reference LRU, lock-grant order as witness, porcupine otherwise) and 4..16 clients x 50..500 ops (large: invariants), and 2..5 clients loading / updating / dumping a full cache of capacity 256..700 (huge: every Dump must list each key exactly once), all under the race detector with the simulator's hand-offs hidden and the application's own lock/pool edges declared; a run is non-trivial when >=2 operations of different clients overlapped and >=1 entry was removed; distinct = distinct hash of (plan, event log)",
 		assume:   []string{"sampling, not enumeration", "context switches happen at sync operations and between statements of valid/cache.go (P-yields, half of the runs); finer-grained interference is left to the race detector", "a race report is a verdict of Go's race detector on the simulated schedule"},
-		quick:    budget{race: true, runs: 40000, maxWall: 35 * time.Second},
+		quick:    budget{race: true, runs: 40000, maxWall: 90 * time.Second},
 		thorough: budget{race: true, runs: 8000000, maxWall: 10 * time.Minute}}
 	e2assume := []string{"sampling, not enumeration", "the reference is the real code run alone in an oracle process (fresh pools, always-miss cache): a defect that is present in isolation too is invisible here by design",
 		"where a call iterates a Go map with more than one entry, error clauses are compared as a multiset (their order is unspecified)"}
 	m["C08"] = &propSpec{id: "C08", engine: "E2-call-history-simulator", level: "exploration",
 		rule:     "seeded histories of 20..860 struct-validation calls by one simulated client over more struct types than the cache holds (static multi-tag types, same-named types from two packages, and up to 560 reflect.StructOf types), tag names and per-call rule/function overrides drawn per call; cache configuration drawn per history (LRU 0/1/2/3/8/512, sync.Map, always-miss behind a fault-injecting wrapper; the built-in default, a bare sync.Map and a bare NewLRU(n) each in a fresh process) with injected cache faults (store lost, load miss with removal, flush); pools pinned to always-fresh in 3 of 5 histories (only the cache carries state) and recycling in the others; every result compared with the oracle process; non-trivial = a cache hit happened and (an eviction, an injected cache fault, or a second tag name for a cached type); for the built-in cache (not observable): a type was validated under two tag names or more than 512 distinct types were used",
 		assume:   e2assume,
-		quick:    budget{race: false, runs: 6400, maxWall: 30 * time.Second},
+		quick:    budget{race: false, runs: 3200, maxWall: 90 * time.Second},
 		thorough: budget{race: false, runs: 4000000, maxWall: 10 * time.Minute}}
 	m["C12"] = &propSpec{id: "C12", engine: "E2-call-history-simulator", level: "exploration",
 		rule:     "seeded histories of 10..600 heterogeneous calls (all struct entry points, Var, Map, Url, GetOnlyExplainErr, GenValidKV, ValidNamesSplit, GetDumpStructStr) by one simulated client, a quarter of them followed by a seeded permutation of the same calls; pools recycle LIFO / oldest-first / random with injected pool faults; small caches; a rule-text swarm for Var (every built-in rule with several argument variants); oracles: result equals the oracle process's (cross-checked for a quarter of the histories against a brand-new oracle process that sees the calls in reverse order), inputs deep-equal to a twin, every string handed out still reads as when handed out after the pools were churned; non-trivial = at least one pooled object was recycled and >= 2 calls ran",
 		assume:   e2assume,
-		quick:    budget{race: false, runs: 9600, maxWall: 30 * time.Second},
+		quick:    budget{race: false, runs: 8000, maxWall: 90 * time.Second},
 		thorough: budget{race: false, runs: 4000000, maxWall: 10 * time.Minute}}
 	m["C11"] = &propSpec{id: "C11", engine: "E2-call-history-simulator", level: "exploration",
 		rule:     "seeded schedules of 2..32 simulated clients x 1..8 calls (all entry points) over shared and private types (a third of the runs in focus mode: all clients inside the same one or two types or rule family) with small, default and overflowing caches, bare sync.Map / NewLRU configurations, cold-process runs, pool policies and pool/cache faults, under the race detector with the simulator's hand-offs hidden; every call's result compared with its solo result from the oracle process; non-trivial = >= 2 calls of different clients overlapped and (a pooled object crossed clients or a cached entry was hit)",
 		assume:   append(e2assume, "a race report is a verdict of Go's race detector on the simulated schedule; pools inside the standard library keep the real sync.Pool and can mask (never invent) a report"),
-		quick:    budget{race: true, runs: 9600, maxWall: 40 * time.Second},
+		quick:    budget{race: true, runs: 3600, maxWall: 100 * time.Second},
 		thorough: budget{race: true, runs: 3000000, maxWall: 10 * time.Minute}}
 	return m
 }
